@@ -12,6 +12,7 @@ import (
 	"go.starlark.net/starlark"
 
 	"verif/internal/driver"
+	"verif/internal/gen"
 	"verif/internal/sl"
 )
 
@@ -45,6 +46,33 @@ var seedSnippets = []string{
 	"r = sorted([3, 1, 2], key=lambda v: -v, reverse=True)\nm = max([1, 2], key=lambda v: v)\ne = list(enumerate(reversed(range(3)), 1))\n",
 	"fail('a', 1, sep='-')\n",
 	"x = int('12', 3) + int(1.5) + float('1e3') + len(str(1 << 100)) + ord('a') + len(chr(97)) + abs(-1)\n",
+}
+
+// call forms with hostile argument expansions (each is run as its own text)
+var callForms = []string{
+	"def f(a=1, **kw): return (a, kw)\nx = f(**{1: 2})\n",
+	"x = sorted([], **{None: 1})\n",
+	"x = dict(**{1: 2})\n",
+	"def f(*a, **k): return (a, k)\nx = f(*1)\n",
+	"def f(*a, **k): return (a, k)\nx = f(**1)\n",
+	"def f(*a, **k): return (a, k)\nx = f(**[1])\n",
+	"def f(a, **k): return (a, k)\nx = f(a=1, **{'a': 2})\n",
+	"def f(*, c=1, **k): return (c, k)\nx = f(c=1, **{'c': 2})\n",
+	"def f(a, b): return a\nx = f(*[1], **{'b': 2, 3: 4})\n",
+	"def f(a, b): return a\nx = f(*[1, 2, 3])\n",
+	"def f(a, *, b): return a\nx = f(1, 2)\n",
+	"def f(): pass\nx = f(**{(1, 2): 3})\n",
+	"x = len(*[[1]], **{})\ny = len(**{'x': [1]})\n",
+	"x = 'abc'.find(**{1: 2})\ny = [].append(**{None: None})\n",
+	"x = (lambda **k: k)(**{1.5: 2})\n",
+	"x = struct(**{1: 2})\n",
+	"x = json.encode(**{1: 2})\ny = math.floor(**{2: 1})\nz = time.time(**{3: 1})\n",
+	"def f(a): return a\nx = [f(**{k: 1}) for k in [1, 'a', None, (1,)]]\n",
+	"def f(**k): return k\nd = {}\nd[d.get] = 1\nx = f(**d)\n",
+	"x = print(**{1: 2})\ny = fail(**{1: 2})\n",
+	"x = getattr(*[], **{0: 0})\n",
+	"def f(a, b=2, *c, d, e=5, **g): return 1\nx = f(*range(300), **{str(i): i for i in range(300)})\n",
+	"def f(a): return a\nx = f(*[f], **{'a': f})\n",
 }
 
 var tokenDict = []string{"def", "lambda", "if", "else", "elif", "for", "in", "not", "and", "or", "return", "break", "continue", "pass", "load", "while",
@@ -355,7 +383,7 @@ func armTexts(c *driver.Ctx) {
 	corpus := loadCorpus()
 	c.Count("corpus_seeds_loaded_in_this_shard", len(corpus))
 	// (1) adversarial shapes
-	sizes := []int{10, 100, 1000, 10000, 30000, 60000}
+	sizes := []int{10, 100, 254, 255, 256, 257, 1000, 10000, 30000, 60000}
 	for _, sh := range shapes {
 		for _, n := range sizes {
 			if !c.Take() {
@@ -394,6 +422,33 @@ func armTexts(c *driver.Ctx) {
 			}
 		}
 		c.Distinct("eof/" + t)
+	}
+	// (2b) hostile call forms, every option vector
+	for i, src := range callForms {
+		if !c.Take() {
+			continue
+		}
+		for ob := 0; ob < 64; ob += 7 {
+			runText(c, "call-form", src, ob)
+		}
+		runText(c, "call-form", src, 63)
+		c.Distinct(fmt.Sprintf("callform/%d", i))
+	}
+	// (2c) generated semantic programs with deliberate misuse (arity, kinds, unpacking), random options
+	ng := c.Pick(600, 20000)
+	for i := 0; i < ng; i++ {
+		if !c.Take() {
+			continue
+		}
+		r := c.Rand()
+		bits := r.Intn(64)
+		p := gen.Generate(r, gen.Config{Opts: *sl.OptionsFromBits(bits | 4), Trace: false, Host: false, Loads: true, Misuse: 0.05, MaxStmts: 10})
+		src := gen.Render(p.Stmts, r, p.Options(gen.RandomLayout(r)))
+		runText(c, "generated", src, bits|4)
+		if r.Intn(4) == 0 {
+			runText(c, "generated", src, r.Intn(64))
+		}
+		c.DistinctH(driver.Hash64(src))
 	}
 	// (3) mutated corpus
 	n := c.Pick(2000, 40000)
